@@ -18,6 +18,8 @@
  *   .vctl    : control file (not part of the manifest): lines "TAG KIND" with KIND in
  *                fail-before   exit 1 before writing anything
  *                fail-after    write all outputs (and the depfile), then exit 1
+ *                kill-tool-mid write the bytes "PARTIAL" to every output, then SIGKILL the build tool (the process above the
+ *                              shell that runs this command) and this process: the build dies with a half-written output
  *                term-after    write all outputs, then die of SIGTERM together with the shell that runs
  *                              the command line (the process the build tool waits for)
  * Exit codes: 0 ok, 1 deliberate/IO failure, 2 usage.
@@ -144,11 +146,12 @@ int main(int argc, char** argv) {
   }
 
   const char* kind = control(tag);
-  int fail_after = 0, term_after = 0;
+  int fail_after = 0, term_after = 0, kill_tool_mid = 0;
   if (kind) {
     if (!strcmp(kind, "fail-before")) { dprintf(2, "ncmd: %s: directed failure\n", tag); return 1; }
     if (!strcmp(kind, "fail-after")) fail_after = 1;
     if (!strcmp(kind, "term-after")) term_after = 1;
+    if (!strcmp(kind, "kill-tool-mid")) kill_tool_mid = 1;
   }
 
   struct buf payload = {0};
@@ -166,6 +169,30 @@ int main(int argc, char** argv) {
   }
   bputs(&payload, ")");
 
+  if (kill_tool_mid) {
+    for (int k = out0; k < sep; ++k) write_file(argv[k], "PARTIAL", 7);
+    /* the tool is the parent of the shell that runs this command line (or the parent itself if the shell exec'd us) */
+    pid_t pp = getppid(), tool = pp;
+    char path[64], buf[256] = {0};
+    snprintf(path, sizeof path, "/proc/%d/comm", (int)pp);
+    int fd = open(path, O_RDONLY);
+    if (fd >= 0) { if (read(fd, buf, sizeof buf - 1) < 0) buf[0] = 0; close(fd); }
+    if (!strncmp(buf, "sh", 2) || !strncmp(buf, "dash", 4)) {
+      snprintf(path, sizeof path, "/proc/%d/stat", (int)pp);
+      fd = open(path, O_RDONLY);
+      memset(buf, 0, sizeof buf);
+      if (fd >= 0) { if (read(fd, buf, sizeof buf - 1) < 0) buf[0] = 0; close(fd); }
+      char* rp = strrchr(buf, ')');
+      int gp = 0;
+      char st;
+      if (rp && sscanf(rp + 1, " %c %d", &st, &gp) == 2 && gp > 1) tool = (pid_t)gp;
+    }
+    dprintf(2, "ncmd: %s: killing the build tool (pid %d) with a half-written output\n", tag, (int)tool);
+    kill(tool, SIGKILL);
+    if (tool != pp) kill(pp, SIGKILL);
+    raise(SIGKILL);
+    pause();
+  }
   for (int k = out0; k < sep; ++k) {
     if (restat) {
       struct buf cur = {0};
